@@ -77,15 +77,7 @@ impl OutcomeTestGenerator for Outcome {
                                     let expectation = self
                                         .escaping
                                         .escaped_expectation((&line[..]).trim_newlines());
-                                    // an escaped expectation ignores the final newline
-                                    // anyway (and `(no-eol)` would take over as its kind)
-                                    let suffix = if line.ends_with(b"\n")
-                                        || expectation.ends_with(" (escaped)")
-                                    {
-                                        ""
-                                    } else {
-                                        " (no-eol)"
-                                    };
+                                    let suffix = self.escaping.expectation_suffix(line);
                                     generated.push_str(&formatln!("{}{}", expectation, suffix))
                                 }
                             }
